@@ -359,7 +359,7 @@ _LOCK = threading.Lock()
 
 
 def run_schedule(schedule, out=(), err=(), in_script=None, in_tty=False, pty=False, hold_open=False,
-                 start_fails=False, read_size=1000, explicit_streams=True, asynchronous=False, **kw):
+                 start_fails=False, read_size=1000, explicit_streams=True, asynchronous=False, joins=1, **kw):
     """Execute one schedule on the real Runner.  Returns a dict of observations.
     asynchronous: `run(asynchronous=True)` returns a Promise (workers and timer already running); the main thread
     then parks at an extra gate `main:join` before calling `Promise.join()` (Lean: `MainPc.idle`)."""
@@ -373,6 +373,8 @@ def run_schedule(schedule, out=(), err=(), in_script=None, in_tty=False, pty=Fal
         old = (R.threading, R.time, R.ExceptionHandlingThread, R.os)
         R.threading, R.time, R.ExceptionHandlingThread, R.os = shim_threading, shim_time, GThread, GRunner.os_shim
         obs = {}
+        earlier = []
+        obs["earlier_results"] = earlier
         try:
             r = GRunner(Context(Config()), pty=pty, start_fails=start_fails, read_size=read_size)
             ins = ScriptedIn(sched, in_script, tty=in_tty) if in_script is not None else False
@@ -390,6 +392,19 @@ def run_schedule(schedule, out=(), err=(), in_script=None, in_tty=False, pty=Fal
                     if asynchronous:
                         promise = r.run("cmd", in_stream=ins, encoding="utf-8", asynchronous=True, **kw)
                         sched.gate("main", "join")
+                        # further joins of the same promise (`joins` > 1): each but the last is recorded, the main thread
+                        # parks at `main:rejoin` before calling `join()` again (Lean: `rejoin`)
+                        for _k in range(joins - 1):
+                            try:
+                                res = promise.join()
+                                earlier.append(("return", res.stdout, res.stderr, res.exited))
+                            except Abort:
+                                return
+                            except BaseException as e:  # noqa
+                                res = getattr(e, "result", None)
+                                earlier.append(("raise", type(e).__name__, res.stdout if res is not None else None,
+                                                res.stderr if res is not None else None, res.exited if res is not None else None))
+                            sched.gate("main", "rejoin")
                         res = promise.join()
                     else:
                         res = r.run("cmd", in_stream=ins, encoding="utf-8", **kw)
